@@ -509,6 +509,69 @@ theorem pyramid_level_extent (pr pc f : Rat) (hf : 1 ≤ f) (R C : Int) (hR : f 
     rw [hmr, hmc, h0r, h0c] at this
     exact ⟨cl, rl, rs, cs, hsz, hsp, hr1, hc1, this.1, this.2⟩
 
+/-! ## 6. The hand-written parts of the model are wired like the source (tie T on source text) -/
+
+/-- **What a volume records** (`storeStack`, `storeTiled` assume exactly this): row cosines are the direction of
+affine column 2 and column cosines that of column 1 — in this order; PixelSpacing = (‖column 1‖, ‖column 2‖);
+SpacingBetweenSlices = SliceThickness = ‖column 0‖; plane `p` is placed at index `(p, 0, 0)`.  The expressions are
+read from volume.py on every run (single-assignment locals inlined). -/
+theorem volume_records_its_affine :
+    wiringVolume.lookup "direction_cosines"
+      = some "tuple([*self._affine[:3, 2].copy().tolist(), *self._affine[:3, 1].copy().tolist()])" ∧
+    wiringVolume.lookup "pixel_spacing"
+      = some "(np.sqrt((self._affine[:3, 1] ** 2).sum()).item(), np.sqrt((self._affine[:3, 2] ** 2).sum()).item())" ∧
+    wiringVolume.lookup "spacing_between_slices" = some "np.sqrt((self._affine[:3, 0] ** 2).sum()).item()" ∧
+    wiringVolume.lookup "get_plane_positions"
+      = some "self.map_indices_to_reference(np.array([[p, 0, 0] for p in range(self.spatial_shape[0])]))" ∧
+    wiringVolume.lookup "get_pixel_measures.pixel_spacing" = some "self.pixel_spacing" ∧
+    wiringVolume.lookup "get_pixel_measures.spacing_between_slices" = some "self.spacing_between_slices" ∧
+    wiringVolume.lookup "get_plane_orientation"
+      = some "PlaneOrientationSequence(self.coordinate_system, self.direction_cosines)" := by
+  refine ⟨by decide, by decide, by decide, by decide, by decide, by decide, by decide⟩
+
+set_option maxRecDepth 20000 in
+/-- **How recorded attributes become a geometry** (`fromAttributes`, `stackedGeometry`, `volumeGeometryTiled`
+assume exactly this): `from_attributes` passes position / orientation / spacings through with the volume index
+convention, slices first, shape (frames, rows, columns); a stack takes the position of the frame at volume
+position 0 from the very list it ordered, the recorded SpacingBetweenSlices as hint, the spacing returned by
+`get_volume_positions`, `max(volume_positions) + 1` frames and Rows × Columns; a tiled image takes the
+total-pixel-matrix origin (Z defaulting to 0), ImageOrientationSlide and TotalPixelMatrixRows × Columns, one frame. -/
+theorem geometry_is_built_from_the_recorded_attributes :
+    (wiringVolume.lookup "from_attributes.image_position" = some "image_position" ∧
+     wiringVolume.lookup "from_attributes.image_orientation" = some "image_orientation" ∧
+     wiringVolume.lookup "from_attributes.pixel_spacing" = some "pixel_spacing" ∧
+     wiringVolume.lookup "from_attributes.spacing_between_slices" = some "spacing_between_slices" ∧
+     wiringVolume.lookup "from_attributes.index_convention" = some "VOLUME_INDEX_CONVENTION" ∧
+     wiringVolume.lookup "from_attributes.slices_first" = some "True" ∧
+     wiringVolume.lookup "from_attributes.cls.spatial_shape" = some "(number_of_frames, rows, columns)") ∧
+    (wiringImage.lookup "stacked.image_position" = some "[r[1:] for r in results][volume_positions.index(0)]" ∧
+     wiringImage.lookup "stacked.get_volume_positions.image_positions" = some "[r[1:] for r in results]" ∧
+     wiringImage.lookup "stacked.image_orientation" = wiringImage.lookup "stacked.get_volume_positions.image_orientation" ∧
+     wiringImage.lookup "stacked.get_volume_positions.spacing_hint"
+       = some "self._get_shared_frame_value('SpacingBetweenSlices', none_if_missing=True, filter=filter)" ∧
+     wiringImage.lookup "stacked.get_volume_positions.allow_missing_positions" = some "allow_missing_positions" ∧
+     wiringImage.lookup "stacked.get_volume_positions.allow_duplicate_positions" = some "allow_duplicate_positions" ∧
+     wiringImage.lookup "stacked.spacing_between_slices" = some "volume_spacing" ∧
+     wiringImage.lookup "stacked.number_of_frames" = some "max(volume_positions) + 1" ∧
+     wiringImage.lookup "stacked.rows" = some "self.Rows" ∧ wiringImage.lookup "stacked.columns" = some "self.Columns" ∧
+     wiringImage.lookup "stacked.pixel_spacing" = some "self._get_shared_frame_value('PixelSpacing', vm=2, filter=filter)") ∧
+    (wiringImage.lookup "tiled.image_position"
+       = some "[self.TotalPixelMatrixOriginSequence[0].XOffsetInSlideCoordinateSystem, self.TotalPixelMatrixOriginSequence[0].YOffsetInSlideCoordinateSystem, self.TotalPixelMatrixOriginSequence[0].get('ZOffsetInSlideCoordinateSystem', 0.0)]" ∧
+     wiringImage.lookup "tiled.image_orientation" = some "self.ImageOrientationSlide" ∧
+     wiringImage.lookup "tiled.rows" = some "self.TotalPixelMatrixRows" ∧
+     wiringImage.lookup "tiled.columns" = some "self.TotalPixelMatrixColumns" ∧
+     wiringImage.lookup "tiled.pixel_spacing" = some "self._get_shared_frame_value('PixelSpacing', vm=2)" ∧
+     wiringImage.lookup "tiled.number_of_frames" = some "1") ∧
+    (wiringImage.lookup "single.image_position" = some "self.ImagePositionPatient" ∧
+     wiringImage.lookup "single.image_orientation" = some "self.ImageOrientationPatient" ∧
+     wiringImage.lookup "single.pixel_spacing" = some "self.PixelSpacing" ∧
+     wiringImage.lookup "single.rows" = some "self.Rows" ∧ wiringImage.lookup "single.columns" = some "self.Columns" ∧
+     wiringImage.lookup "single.spacing_between_slices" = some "self.get('SpacingBetweenSlices', 1.0)") := by
+  refine ⟨⟨by decide, by decide, by decide, by decide, by decide, by decide, by decide⟩,
+    ⟨by decide, by decide, by decide, by decide, by decide, by decide, by decide, by decide, by decide, by decide, by decide⟩,
+    ⟨by decide, by decide, by decide, by decide, by decide, by decide⟩,
+    ⟨by decide, by decide, by decide, by decide, by decide, by decide⟩⟩
+
 /-! ## Non-vacuity: the hypotheses are satisfiable by concrete, non-trivial inputs -/
 
 /-- a left-handed, anisotropic, axis-swapped geometry (directions: d0 = −z, d1 = x, d2 = y) -/
